@@ -399,6 +399,60 @@ func c09Run(rep *vh.Report, srv *Server, a *vref.VAsset, asset string, r *vref.V
 			}
 			viol(clause, sig, fmt.Sprintf("t=%d (advertised availability %d): %s", t, tAdv, f.Msg), url, f.Choices)
 		}
+		// the request context ends while the writer waits for a chunk (client gone, server time-out, session deleted):
+		// bytes may be missing from then on, but none is written earlier than in the undisturbed response
+		if t == tAdv || t == tAdv+1 {
+			serve := func(cancelAfterMS int64) *c09Writer {
+				w := &c09Writer{hdr: http.Header{}}
+				vrt.Run(nil, vrt.RunOpts{StartNS: t * 1_000_000, WatchdogS: 60, AllowBlockedDaemons: true, EndWithMain: true}, func(s *vrt.Sched) {
+					w.s = s
+					req := httptest.NewRequest("GET", url, nil)
+					if cancelAfterMS > 0 {
+						ctx, cancel := vrt.WithCancel(req.Context())
+						req = req.WithContext(ctx)
+						vrt.Go(func() {
+							s.Sleep(cancelAfterMS * 1_000_000)
+							cancel()
+						})
+					}
+					srv.Router.ServeHTTP(w, req)
+				})
+				return w
+			}
+			base := serve(0)
+			rep.AddExecs(1)
+			segMS := (vref.TicksToMSCeil(segE, r.TS) - vref.TicksToMSCeil(segS, r.TS))
+			for _, after := range []int64{1, segMS / 16, segMS / 5, segMS / 3, segMS / 2} {
+				if after <= 0 || base.code != 200 {
+					continue
+				}
+				c := serve(after)
+				rep.AddExecs(1)
+				rep.Hit("C09.e")
+				// only the part that is the media response counts (an error text may follow once the context has ended)
+				bb, cb := base.buf.Bytes(), c.buf.Bytes()
+				common := 0
+				for common < len(bb) && common < len(cb) && bb[common] == cb[common] {
+					common++
+				}
+				bo, co := 0, 0
+				bi := 0
+				for _, x := range c.writes {
+					co += x.n
+					if co > common {
+						break
+					}
+					for bi < len(base.writes) && bo+base.writes[bi].n < co {
+						bo += base.writes[bi].n
+						bi++
+					}
+					if bi < len(base.writes) && x.atMS < base.writes[bi].atMS {
+						viol("C09.e", "chunk-early:after-context-end", fmt.Sprintf("t=%d, request context ended %d ms later: byte %d of the response was written at %d ms, the undisturbed response writes it at %d ms", t, after, co, x.atMS, base.writes[bi].atMS), url, nil)
+						break
+					}
+				}
+			}
+		}
 	}
 	rep.Sample(map[string]any{"asset": asset, "rep": r.ID, "atoMS": atoMS, "drm": d, "start": start, "n": n, "instants": ts})
 }
